@@ -12,6 +12,7 @@ import (
 	"strings"
 
 	"github.com/bluenviron/gortsplib/v5/pkg/base"
+	"github.com/bluenviron/gortsplib/v5/pkg/description"
 
 	"verifharness/corr"
 )
@@ -112,6 +113,17 @@ func checkE2E(c *corr.Ctx, cs *E2ECase, r *e2eResult) {
 			}
 		}
 	}
+	// what the server's parser read is what the client wrote (the final TEARDOWN may still be in flight)
+	for i, q := range r.read {
+		if i >= len(r.reqs) {
+			break
+		}
+		if w := r.reqs[i]; w.Method != q.Method || w.Target != q.Target {
+			viol("the request the server reads is the request the client wrote", "e2e-wire-mismatch",
+				fmt.Sprintf("%s %s: request %d written %s %q, read %s %q", cs.Kind, r.urlText, i, w.Method, w.Target, q.Method, q.Target))
+			break
+		}
+	}
 	for _, q := range r.reqs {
 		if q.Target == "*" {
 			continue
@@ -206,7 +218,63 @@ func effectiveAuth(cs *E2ECase, u *base.URL) bool {
 	return cs.Auth && u != nil && u.User != nil && u.User.Username() != ""
 }
 
+// preflight marshals, in the harness goroutine and under the watchdog, the requests the library client is
+// going to write for a URL (the URL itself, its Content-Base and the media URLs derived from it): a panic in
+// the client's own goroutine could not be recovered.  Reports whether it is safe to hand the URL to the client.
+func preflight(c *corr.Ctx, input any, texts []string, controls []string) (ok bool) {
+	if tooManyTimeouts() {
+		return false
+	}
+	return guardedSkip(c, input, func() {
+		for _, t := range texts {
+			u, err := base.ParseURL(t)
+			if err != nil {
+				continue
+			}
+			urls := []*base.URL{u}
+			if b, err := base.ParseURL(requestTarget(u) + "/"); err == nil {
+				b.User = u.User
+				urls = append(urls, b)
+			}
+			for _, b := range append([]*base.URL{}, urls...) {
+				for _, ctl := range controls {
+					m := description.Media{Control: ctl}
+					if mu, err := m.URL(b); err == nil && mu != nil {
+						urls = append(urls, mu)
+					}
+				}
+			}
+			for _, x := range urls {
+				for _, m := range []base.Method{base.Options, base.Describe, base.Setup, base.Play, base.Teardown} {
+					req := base.Request{Method: m, URL: x, Header: base.Header{"CSeq": base.HeaderValue{"1"}, "User-Agent": base.HeaderValue{"verif"}}}
+					size := req.MarshalSize()
+					buf := make([]byte, size+64)
+					n, err := req.MarshalTo(buf)
+					if err != nil || n != size {
+						// a request cut short would leave the peer waiting: report it here and keep the case away from the sockets
+						c.Violate(corr.Violation{Property: prop, Clause: "the request the server reads is the request the client wrote", Key: "pure-marshal-size",
+							Where: "pkg/base Request", Input: input, Detail: fmt.Sprintf("%s %s: MarshalSize() = %d, MarshalTo wrote %d bytes (err %v)", m, x, size, n, err)})
+						panic(errSkipCase)
+					}
+					if _, err := req.Marshal(); err != nil {
+						panic(fmt.Sprintf("Marshal %s %s: %v", m, x, err))
+					}
+				}
+			}
+		}
+	})
+}
+
 func runE2ECase(c *corr.Ctx, srv *e2eServer, cs *E2ECase, name string) {
+	in := map[string]any{"e2e": cs}
+	if !preflight(c, in, []string{cs.resolved(srv.port).String()}, []string{control(0), control(1), control(2), control(3)}) {
+		c.Dist("e2e-skipped-after-panic")
+		return
+	}
+	guarded(c, in, func() { runE2ECaseInner(c, srv, cs, name) })
+}
+
+func runE2ECaseInner(c *corr.Ctx, srv *e2eServer, cs *E2ECase, name string) {
 	r := srv.runE2E(cs)
 	c.Dist("e2e-" + cs.Kind)
 	c.Dist("e2e-shape-" + shape(cs.resolved(0)))
@@ -218,6 +286,7 @@ func runE2ECase(c *corr.Ctx, srv *e2eServer, cs *E2ECase, name string) {
 		c.Dist("e2e-userinfo")
 	}
 	if r.step != "" {
+		noteTimeout(r.err)
 		c.Dist("e2e-failed-step-" + r.step)
 		if transient(r.err) {
 			c.Dist("e2e-failed-transient-looking")
@@ -259,9 +328,27 @@ func (g gen) camCase() *CamCase {
 func (g gen) pick2(xs [][]string) []string { return xs[g.r.IntN(len(xs))] }
 
 func runCamCase(c *corr.Ctx, srv *camServer, cs *CamCase, name string) {
+	in := map[string]any{"cam": cs}
+	texts := []string{cs.resolved(srv.port).String()}
+	for _, v := range cs.CB {
+		texts = append(texts, strings.ReplaceAll(v, "{T}", texts[0]))
+	}
+	if cs.HasSessCtl {
+		texts = append(texts, cs.SessCtl)
+	}
+	texts = append(texts, cs.Controls...) // absolute controls
+	if !preflight(c, in, texts, cs.Controls) {
+		c.Dist("cam-skipped-after-panic")
+		return
+	}
+	guarded(c, in, func() { runCamCaseInner(c, srv, cs, name) })
+}
+
+func runCamCaseInner(c *corr.Ctx, srv *camServer, cs *CamCase, name string) {
 	r := srv.run(cs)
 	c.Dist("cam")
 	if r.step != "" {
+		noteTimeout(r.err)
 		c.Dist("cam-failed-step-" + r.step)
 	}
 	if r.step == "parse" || r.step == "start" {
@@ -316,12 +403,13 @@ func runCamCase(c *corr.Ctx, srv *camServer, cs *CamCase, name string) {
 // Run is the entry point of the domain.
 func Run(c *corr.Ctx) {
 	c.Rule("pure: base.ParseURL/String/CloneWithoutCredentials, getPathAndQuery(+TrackID), findMediaByURL/TrackID, findBaseURL, Media.URL on generated + malformed URL text vs the Lean model; " +
-		"e2e: real Server + real Client (describe/setup*/play/pause and announce/setup*/record/pause) and a scripted camera server vs the model's predicted handler trace and request lines; " +
+		"e2e: real Server + real Client (describe/setup*/play/pause and announce/setup*/record/pause), a scripted camera server, and redirect chains x automatic switch to TCP against two scripted servers, vs the model's predicted handler trace and request lines; " +
 		"oracle: handlers see the original path and query, each SETUP reaches its media, no user-info on request lines")
 	g := gen{c.Rng}
 
 	var srv *e2eServer
 	var cam *camServer
+	var sw *swServers
 	servers := func() {
 		if srv == nil {
 			var err error
@@ -331,12 +419,16 @@ func Run(c *corr.Ctx) {
 			if cam, err = startCamServer(); err != nil {
 				panic(err)
 			}
+			if sw, err = startSwServers(); err != nil {
+				panic(err)
+			}
 		}
 	}
 	defer func() {
 		if srv != nil {
 			srv.close()
 			cam.close()
+			sw.close()
 		}
 	}()
 
@@ -344,6 +436,7 @@ func Run(c *corr.Ctx) {
 		var in struct {
 			E2E  *E2ECase  `json:"e2e"`
 			Cam  *CamCase  `json:"cam"`
+			Sw   *SwCase   `json:"sw"`
 			Pure *URLParts `json:"pure"`
 			N    int       `json:"n"`
 			Text *string   `json:"text"`
@@ -358,6 +451,9 @@ func Run(c *corr.Ctx) {
 		case in.Cam != nil:
 			servers()
 			runCamCase(c, cam, in.Cam, name)
+		case in.Sw != nil:
+			servers()
+			runSwCaseGuarded(c, sw, in.Sw, name)
 		case in.Pure != nil:
 			n := in.N
 			if n < 1 {
@@ -393,6 +489,13 @@ func Run(c *corr.Ctx) {
 
 	runPure(c, g)
 
+	defer func() {
+		if tooManyTimeouts() {
+			c.Note("end-to-end cases were skipped after 6 cases ended in time-outs")
+			c.Violate(corr.Violation{Property: prop, Clause: "a library client that describes, sets up and plays or records the stream", Key: "e2e-timeouts",
+				Where: "e2e", Input: nil, Detail: "6 end-to-end cases ended in time-outs; the remaining end-to-end cases were skipped"})
+		}
+	}()
 	servers()
 	n := c.N(400, 6000)
 	for i := 0; i < n; i++ {
@@ -403,6 +506,36 @@ func Run(c *corr.Ctx) {
 	for i := 0; i < n; i++ {
 		runCamCase(c, cam, g.camCase(), fmt.Sprintf("cam-%d", i))
 	}
+	// redirect chains x automatic switch to TCP (a few with a keep-alive: those take > 1 s each)
+	n = c.N(120, 1500)
+	ka := c.N(3, 30)
+	for i := 0; i < n; i++ {
+		cs := g.swCase()
+		cs.KeepAlive = i < ka
+		runSwCaseGuarded(c, sw, cs, fmt.Sprintf("sw-%d", i))
+	}
+}
+
+func runSwCaseGuarded(c *corr.Ctx, srv *swServers, cs *SwCase, name string) {
+	in := map[string]any{"sw": cs}
+	texts := []string{cs.resolved(srv.ports[0]).String()}
+	for _, l := range cs.Locations {
+		texts = append(texts, srv.subst(l))
+	}
+	for _, v := range cs.CB {
+		for _, t := range append([]string{}, texts...) {
+			texts = append(texts, strings.ReplaceAll(v, "{T}", t))
+		}
+	}
+	if cs.HasSessCtl {
+		texts = append(texts, cs.SessCtl)
+	}
+	texts = append(texts, cs.Controls...)
+	if !preflight(c, in, texts, cs.Controls) {
+		c.Dist("sw-skipped-after-panic")
+		return
+	}
+	guarded(c, in, func() { runSwCase(c, srv, cs, name) })
 }
 
 func corpusDir() string {
